@@ -367,6 +367,26 @@ def check(ctx):
     ctx.ob("R2", "async_reset::lands-in-first-trigger", _after == ("IDLE", None) and bool(rounds.get(("IDLE", False, "SPA-ID", False))),
            f"async_reset from CONNECTED leaves (state, descriptors) = {_after}: not (IDLE, None), the driver's first trigger", reset.loc)
 
+    # (b'') nothing resets the manager from under a connection attempt: while CONNECTING the ping loop of the new connection
+    # is already running; a runtime event that moves the manager into a state of the ping-received reset row lets the next
+    # answered ping reset it while the handshake is still in flight - the attempt fails on objects the reset took away,
+    # and with the driver awaiting it (see the known finding) nothing reconnects
+    for ev_ in ("ERROR_RF_ERROR", "RUNNING_PING_MISSED", "RUNNING_PING_NO_RESPONSE", "RUNNING_SPA_PACK_REFRESHED", "RUNNING_PING_RECEIVED"):
+        _mc = Manager(repo).warm_up()
+        _mc.put("CONNECTING", facade=False, spa=True, connected=False, descriptors=True)
+        try:
+            _mc.fire(ev_)
+            mid = _mc.state()
+            _mc.fire("RUNNING_PING_RECEIVED")
+            out_ = None
+        except PyRaise as e:
+            mid, out_ = _mc.state(), e.what
+        reset_ = "spa.disconnect" in _mc.log
+        ctx.ob("R2", f"attempt-in-flight::{ev_}::then-ping::no-reset", not reset_,
+               f"while CONNECTING, {ev_} (state afterwards {mid}) followed by an answered ping: {'the manager resets itself' if reset_ else 'no reset'}{', raises ' + out_ if out_ else ''} - "
+               f"a reset while the handshake is in flight takes the protocol away from under it; the attempt raises out of the driver and nothing reconnects", he.loc,
+               sample={"rule": "R2", "event": ev_, "state_after_event": mid, "reset": reset_})
+
     # (b') the reset must complete even though it runs inside the ping-loop task it cancels
     from .c10 import reset_survives_self_cancel
     reset_survives_self_cancel(ctx, repo, "R2")
